@@ -35,7 +35,7 @@ class View:
     def fail_class(self, a):
         """class of attempt a's failure (None when it is a success / abort / cancel / nested)"""
         kind, dur, klass, ra = self.op(a)
-        if kind == "R":
+        if kind in ("R", "O"):
             return klass, "exception", ra
         if kind == "V" and klass is not None and self.cfg["has_rc"]:
             return klass, "result", ra
